@@ -11,6 +11,8 @@ RULE = ('cases = (generated document, xml mode, position); documents from random
         'three functions each. Non-trivial = the position lies strictly inside at least one element; distinct by (document, position)')
 ASSUMPTIONS = ['generator bookkeeping is self-checked: every recorded range slices to the text it claims',
                'end tags are written without inner blanks, unquoted values without "/" and attribute values without backslashes (outside the stated generator)',
+               'an end tag repeats the letter case of its start tag and script / style are written in lower case: the matcher pairs names as written (HTML\'s '
+               'case-insensitive pairing is not claimed by the statement); void elements ARE generated in upper / capitalised form (`<BR>`): the statement names them',
                'balanced_inward boundary convention is left open: first entry = a recorded element touching the position with no recorded descendant strictly containing it; rest = exactly its first-child chain']
 FLOORS = {'quick': {'position': 30000, 'document': 200}, 'thorough': {'position': 2000000, 'document': 12000}}
 REQUIRED_MONITORS = ['oracle:match', 'oracle:attributes', 'oracle:outward', 'oracle:inward']
